@@ -57,7 +57,9 @@ func suffixRace(r *ev.Run, e *etcdx.Etcd, rng *rand.Rand, n int) string {
 	A, B := w.Members[0], w.Members[1]
 	prefix := A.AM.GetLocalTSOSuffixPathPrefix() + "/"
 	var steps []string
-	step := func(f string, a ...interface{}) { steps = append(steps, fmt.Sprintf("t%d ", hist.Now())+fmt.Sprintf(f, a...)) }
+	step := func(f string, a ...interface{}) {
+		steps = append(steps, fmt.Sprintf("t%d ", hist.Now())+fmt.Sprintf(f, a...))
+	}
 	// members publish their dc-locations (no PD leader yet: the checkers they spawn return at once)
 	if err := A.AM.SetLocalTSOConfig("dc-1"); err != nil {
 		r.Inconclusive("suffix add-on: SetLocalTSOConfig: %v", err)
